@@ -30,11 +30,18 @@ int64_t evaluate_arithmetic_binary(const std::string &op, int64_t left,
             error_msg(DebugMsgId::ZERO_DIVISION_ERROR);
             throw std::runtime_error("Division by zero");
         }
+        if (right == -1) {
+            // INT64_MIN / -1 はハードウェア例外(SIGFPE)になるため、符号反転として計算
+            return static_cast<int64_t>(0 - static_cast<uint64_t>(left));
+        }
         return left / right;
     } else if (op == "%") {
         if (right == 0) {
             error_msg(DebugMsgId::ZERO_DIVISION_ERROR);
             throw std::runtime_error("Modulo by zero");
+        }
+        if (right == -1) {
+            return 0; // x % -1 は常に0（INT64_MIN % -1 のSIGFPEを回避）
         }
         return left % right;
     }
